@@ -26,6 +26,11 @@ def cfg_text(kind, start, ver, maxfree, maxfaults, pairfrom, sim, simfaults):
             % (start, ver, maxfree, kind, maxfaults, pairfrom, "TRUE" if sim else "FALSE", simfaults, INVARIANTS))
 
 
+# every registered room version but org.matrix.msc4014 (pseudo IDs: senders are keys, user IDs come from
+# mxid_mapping in the member events - the room model of Room.tla and the harness cannot carry that)
+VERSIONS = ["1", "2", "3", "4", "5", "6", "7", "8", "9", "10", "11", "12",
+            "org.matrix.msc3667", "org.matrix.msc3787", "org.matrix.hydra.11"]
+
 SIM_WORKERS = 4
 SIM_TRACES = 120
 SIM_DEPTH = 14
@@ -35,15 +40,14 @@ def plans(tier):
     """(kind, Start, version, MaxFree, MaxFaults, PairFrom, simulated traces (0 = exhaustive), SimFaults)"""
     P = []
     if tier == "quick":
+        # every operation for every registered room version (event formats v1 / v2 / v3+, domainless room IDs,
+        # the unstable identifiers): the room of the first creation prefix, every single deviation
+        P += [("all", 1, ver, 0, 1, 1, 0, 0) for ver in VERSIONS]
         P += [("state", 1, "10", 1, 1, 1, 0, 0),       # every room with one more event x every single fault
               ("state", 1, "12", 0, 2, 1, 0, 0),       # the base room x every fault pair
-              ("state", 2, "10", 0, 2, 7, 0, 0),
               ("sendjoin", 1, "12", 1, 1, 1, 0, 0),
-              ("sendjoin", 2, "10", 0, 2, 1, 0, 0),
               ("chain", 1, "10", 1, 2, 1, 0, 0),
-              ("chain", 2, "12", 1, 1, 1, 0, 0),
               ("atstate", 1, "10", 1, 1, 1, 0, 0),
-              ("atstate", 1, "12", 1, 1, 1, 0, 0),
               ("load", 1, "12", 1, 1, 1, 0, 0),
               ("load", 2, "10", 0, 2, 7, 0, 0)]
         return P
@@ -64,6 +68,8 @@ def plans(tier):
           ("sendjoin", 2, "12", 1, 1, 1, 0, 0),
           ("load", 2, "12", 1, 1, 1, 0, 0),
           ("load", 2, "10", 0, 2, 7, 0, 0)]
+    # every operation for every registered room version, second creation prefix, single deviations
+    P += [("all", 2, ver, 0, 1, 1, 0, 0) for ver in VERSIONS]
     # the other event formats / rule sets, single faults
     for ver in ("1", "6", "11"):
         P += [("state", 1, ver, 1, 1, 1, 0, 0),
@@ -108,7 +114,7 @@ def run(ctx):
             f.write(cfg_text(*p[:6], sim=p[6] > 0, simfaults=p[7] or 3))
         jobs.append((p, cfg))
 
-    par = 3
+    par = 5 if ctx.tier == "quick" else 3      # the quick plans are many small runs
     per = max(2, ctx.workers // par)
 
     def one(job):
